@@ -39,6 +39,7 @@ enum Behav {
 	B_INDEX_SHAPE,        // aggr: the last index element of a chain does not describe its link shape
 	B_STATUS_CONTENT,     // non-zero status (ordinary codes and multiples of 2^32) on a reply that otherwise carries honest content
 	B_EXTRA_LINKS,        // ext: surplus right links at the input end / surplus left links at the far end of a genuine chain
+	B_NO_AGG_TIME,        // ext: genuine chain without the optional aggregation-time element (absent means "equal to the publication time")
 	B__COUNT
 };
 const char *behav_name(int b);
